@@ -1,18 +1,22 @@
 #!/bin/bash
-# usage: tools/allseeded.sh [outdir]  -- run every seeded change through its property's quick check in a scratch worktree
-# (properties in parallel, the changes of one property one after the other: they share that property's build directory);
-# prints one line per change: CAUGHT / MISSED.  Takes about an hour on 16 cores.
+# usage: tools/allseeded.sh [outdir]  -- run every seeded change through its property's quick check in a scratch worktree of /repo.
+# Works on a snapshot of /verif (copied to <outdir>/verif, compiled library included), so /verif can be edited meanwhile.
+# Properties run in parallel (PAR, default 4), the changes of one property one after the other (they share that property's build
+# directory).  One line per change: CAUGHT / MISSED.  Takes a few hours on 16 cores.
 cd "$(dirname "$0")/.."
-OUT=${1:-/tmp/allseeded}; mkdir -p $OUT
+OUT=${1:-/root/allseeded}; mkdir -p $OUT; rm -rf $OUT/verif
+rsync -a --exclude build --exclude replays --exclude .git ./ $OUT/verif/
+export VERIF_ROOT=$OUT/verif
 one_prop() {
   P=$1
-  for d in seeded/$P-*/; do
+  for d in $VERIF_ROOT/seeded/$P-*/; do
     n=$(basename $d)
-    r=$(tools/trymut2.sh $P /verif/$d/patch.diff 2>&1 | grep '^== ' | head -1)
+    r=$($VERIF_ROOT/tools/trymut2.sh $P $d/patch.diff 2>&1 | grep '^== ' | head -1)
     case "$r" in *"rc=1"*) echo "CAUGHT $n :: $r" ;; *) echo "MISSED $n :: $r" ;; esac
   done > $OUT/$P.log 2>&1
 }
 export -f one_prop; export OUT
-ls seeded | sed 's/-.*//' | sort -u | xargs -P ${PAR:-6} -I{} bash -c 'one_prop {}'
+ls seeded | sed 's/-.*//' | sort -u | xargs -P ${PAR:-4} -I{} bash -c 'one_prop {}'
 cat $OUT/C*.log | cut -c1-200 | sort -k2 > $OUT/summary.txt
 grep -c CAUGHT $OUT/summary.txt; grep MISSED $OUT/summary.txt
+rm -rf $OUT/verif
